@@ -137,6 +137,10 @@ func c13Recipe(c *core.Ctx, r ref.CharRecipe) {
 		why = "a required set emptied by exclusion (either)"
 	case count.Sign() == 0:
 		mustRefuse, why = true, "no string satisfies the requirements"
+	case p.Cmp(big.NewRat(1, 1)) == 0 && spg.MaxTrials >= 1:
+		// every candidate satisfies the recipe: the failure probability is
+		// exactly 0, which is not above any configured limit (0 included)
+		mustAccept, why = true, "every candidate satisfies the recipe (failure probability exactly 0)"
 	default:
 		q := new(big.Float).SetPrec(300).SetRat(new(big.Rat).Sub(big.NewRat(1, 1), p))
 		f := bigPow(q, spg.MaxTrials)
@@ -498,11 +502,50 @@ func c13Run(c *core.Ctx) {
 			}
 		}
 	}
+	// long recipes (entropies beyond 1024 bits, where 2^H overflows a float64)
+	big4096 := ""
+	for i := 0; i < 4096; i++ {
+		big4096 += string(rune(0x4e00 + i))
+	}
+	longL := []int{86, 100, 172, 173, 174, 180, 256, 1000}
+	if c.Thorough() {
+		longL = []int{80, 85, 86, 90, 100, 150, 170, 171, 172, 173, 174, 175, 180, 200, 255, 256, 257, 500, 1000, 2000, 5000}
+	}
+	for _, L := range longL {
+		for _, r := range []ref.CharRecipe{
+			{Length: L, Allow: ref.All, Exclude: ref.Ambiguous},
+			{Length: L, Allow: ref.All, Require: ref.Digits},
+			{Length: L, Allow: ref.Letters | ref.Digits, RequireSets: []string{"ab", "bc"}},
+			{Length: L, AllowChars: big4096},
+			{Length: L, AllowChars: big4096, Require: ref.Digits},
+			{Length: L, AllowChars: "ab"},
+		} {
+			if c.Mine() {
+				c13Recipe(c, r)
+			}
+		}
+	}
 	// (c) attempt budget on an all-fail tape
 	budgets := []struct {
 		t int
 		r float64
-	}{{200, 1e-9}, {3, 0.9}, {1, 1}, {2, 1}, {7, 0.5}}
+	}{{200, 1e-9}, {3, 0.9}, {1, 1}, {2, 1}, {7, 0.5}, {200, 0}, {1, 0}, {5, 1e-300}}
+	plain := []ref.CharRecipe{
+		{Length: 3, AllowChars: "ab"},
+		{Length: 20, Allow: ref.All, Exclude: ref.Ambiguous},
+		{Length: 1, Allow: ref.Digits},
+		{Length: 2, Allow: ref.Digits, Require: ref.Digits},
+	}
+	for _, b := range budgets {
+		for _, r := range plain {
+			if c.Mine() {
+				oldT, oldR := spg.MaxTrials, spg.MaxFailRate
+				spg.MaxTrials, spg.MaxFailRate = b.t, b.r
+				c13Recipe(c, r)
+				spg.MaxTrials, spg.MaxFailRate = oldT, oldR
+			}
+		}
+	}
 	fails := []ref.CharRecipe{
 		{Length: 2, AllowChars: "ab", RequireSets: []string{"1"}},
 		{Length: 3, AllowChars: "ab", RequireSets: []string{"1", "é"}},
